@@ -2,7 +2,8 @@
 
  1. TLC, exhaustive: spec/KeyKeeper.tla (one action per host call / file-system call of loop_poll) with Converged,
     FailedPollChangesNothing (+ the C08 invariants, liveness in a smaller configuration without state constraint);
-    two corner configurations drop one assumption each (rule ids are non-empty; an id determines the content).
+    KeyKeeper_rules adds rule documents with the empty id / a changed mode under the same id; two corner configurations
+    show that the design in which rules are replaced only when the id changes breaks Converged on exactly those.
  2. S->I: scripted histories (seeded random + enumerated document transitions + the corner histories TLC found) are
     run through the specification by TLC (spec/gen/KeyKeeperGen: expected state at the end of every poll) and through
     the REAL key keeper in lock-step with the scripted host: the host withholds every reply, the arrival of the next
@@ -44,6 +45,9 @@ MC = [
       "StoreRename", "ReadBack", "Attest", "UpdateKeyMem", "UpdChannelState", "UpdPolicy", "ClearKey", "Sleep", "Reconfigure",
       "Rotate", "Crash", "Damage", "Restart"]),
     ("MC_KeyKeeper", "KeyKeeper_live.cfg", None, ["Attest", "Crash", "Restart"]),
+    # rule documents with the empty id and documents that change their mode under the same id
+    ("MC_KeyKeeper", "KeyKeeper_rules.cfg", None, ["UpdRuleId", "SetRules", "Reconfigure"]),
+    # the design before the repair (rules replaced only when the id changes) must break the Rules clause on those
     ("MC_KeyKeeper", "KeyKeeper_emptyid.cfg", "Converged", None),
     ("MC_KeyKeeper", "KeyKeeper_sameid.cfg", "Converged", None),
 ]
@@ -55,7 +59,7 @@ def model_check_async(workers=8, skip=False):
 
     def work():
         try:
-            for mod, cfg, expect, req in (MC[2:3] if skip else MC):
+            for mod, cfg, expect, req in (MC[3:4] if skip else MC):
                 res = tlcmod.run(mod, cfg, os.path.join(util.SPEC, "mc"), workers=workers, timeout=900, heap="8g",
                                  java_opts=["-DTLA-Library=" + util.SPEC])
                 out["res"].append((mod, cfg, expect, req, res))
@@ -87,7 +91,7 @@ def fold(c, t, out):
             if res.invariant_violated != expect:
                 raise tlcmod.TlcError("%s was expected to violate %s without its assumption (anti-vacuity of the clause); got %s" % (
                     cfg, expect, res.invariant_violated or res.error_lines[:2] or "no violation"))
-            c.extra.setdefault("corner_configs", {})[cfg] = "violates %s at depth %d, as a design that mirrors the code must" % (expect, res.depth)
+            c.extra.setdefault("corner_configs", {})[cfg] = "violates %s at depth %d (design in which rules are replaced only when the id changes)" % (expect, res.depth)
 
 
 def make_scripts(c):
